@@ -450,6 +450,8 @@ def _nnf(test: ast.AST, pol: bool) -> ast.AST:
 
     if isinstance(test, ast.UnaryOp) and isinstance(test.op, ast.Not):
         return _nnf(test.operand, not pol)
+    if isinstance(test, ast.Call) and isinstance(test.func, ast.Name) and test.func.id == 'bool' and len(test.args) == 1 and not test.keywords and not isinstance(test.args[0], ast.Starred):
+        return _nnf(test.args[0], pol)
     if isinstance(test, ast.BoolOp):
         op = test.op if pol else (ast.Or() if isinstance(test.op, ast.And) else ast.And())
         values = []
